@@ -141,6 +141,21 @@ def witness_programs(ctx):
     return out
 
 
+def cover_programs(ctx, rnd):
+    """C02: state-cover programs from PithosCover.tla (BFS, VIEW = model state): the shortest program into every
+    distinct state entered by a version-id delete of the current version after which the candidate promotion rules
+    (most recently written / newest row / highest version id) disagree."""
+    r = ctx.tlc("PithosCover", "Pithos.Cover.cfg", workers=4, timeout=1500, subst={"MaxClock": ctx.pick("6", "7")})
+    progs = [p for p in r.printed if isinstance(p, list)]
+    ctx.log("cover search: %d promotion programs, %d states, %.1fs" % (len(progs), r.distinct, r.wall))
+    if not r.ok() or len(progs) < 10:
+        raise vlib.Infra("cover program generation failed (%s, %d programs)" % (r.outcome, len(progs)))
+    ctx.extra["cover_programs_total"] = len(progs)
+    progs.sort(key=lambda p: json.dumps(p, sort_keys=True))
+    n = ctx.pick(100, 2500)
+    return progs if len(progs) <= n else rnd.sample(progs, n)
+
+
 def validate(ctx, trace_file, deviations):
     """Run PithosTrace over a trace. Returns (consumed_lines, total_lines, diag_records, etag_table)."""
     n = sum(1 for _ in open(trace_file))
@@ -309,6 +324,36 @@ def run(ctx):
             ctx.sample({"stack": stack, "program": progs[0][:8]})
         et = run_tv(ctx, tf, stack)
         nterms += check_digests(ctx, drv, et, stack)
+    if ctx.prop == "C01":
+        # dedup-stress family: one blob only, so every part deduplicates onto the same stored part and objects,
+        # copies, appended and multipart objects all share it (reference counting decides what stays readable)
+        dd = gen_programs(ctx, ctx.pick(12, 300), ctx.pick(30, 40),
+                          ["CreateBucket", "PutObject", "AppendObject", "CopyObject", "DeleteObject", "CreateUpload", "UploadPart",
+                           "UploadPartCopy", "CompleteUpload", "AbortUpload", "GetObject", "PutVersioning"],
+                          ctx.seed * 1000 + 77, "dedup",
+                          {"Blobs": '{"c2"}', "CTypes": '{"none"}', "MetaSets": '{"none"}', "TagSets": '{"none"}',
+                           "Classes": '{"none"}', "Conds": '{"none"}', "CkSums": '{"none"}', "MaxParts": "2", "Keys": '{"k1", "k2"}',
+                           "Buckets": '{"b1"}',
+                           "OpBoost": '{"CopyObject", "AppendObject", "DeleteObject"}', "BoostFactor": "2"})
+        for st in stacks[:2]:
+            pf = ctx.path("programs-dedup-%s.ndjson" % st)
+            vlib.write_ndjson(pf, [{"id": 7000 + i, "calls": p} for i, p in enumerate(dd)])
+            tf = ctx.path("trace-dedup-%s.ndjson" % st)
+            ctx.run([drv, "run", st, ctx.path("state-dedup-" + st), pf, tf], timeout=3000)
+            run_tv(ctx, tf, "dedup-" + st)
+            ctx.traces += len(dd)
+            ctx.evaluations += sum(len(p) for p in dd)
+        ctx.extra["dedup_stress_programs"] = len(dd)
+    if ctx.prop == "C02":
+        cov = cover_programs(ctx, rnd)
+        pf = ctx.path("programs-cover.ndjson")
+        vlib.write_ndjson(pf, [{"id": 5000 + i, "calls": p} for i, p in enumerate(cov)])
+        tf = ctx.path("trace-cover.ndjson")
+        ctx.run([drv, "run", stacks[0], ctx.path("state-cover"), pf, tf], timeout=3000)
+        run_tv(ctx, tf, "cover")
+        ctx.traces += len(cov)
+        ctx.evaluations += sum(len(p) for p in cov)
+        ctx.extra["cover_programs_run"] = len(cov)
     # 3. counterexample-guided witness programs for every open finding of this module
     wit = witness_programs(ctx)
     if wit:
